@@ -47,6 +47,15 @@ func (t *Telnet) handleControlCharResponse(ctrlBuf []byte, c byte) ([]byte, erro
 		}
 	} else if len(ctrlBuf) == 1 && util.ByteIsAny(c, []byte{do, dont, will, wont}) {
 		ctrlBuf = append(ctrlBuf, c)
+	} else if len(ctrlBuf) == 1 {
+		// IAC followed by anything but an option verb is a two byte command (NOP, GA, ...) or an
+		// escaped IAC (a literal 0xff data byte); neither opens a negotiation, so leave "control
+		// mode" -- otherwise every following data byte would be swallowed.
+		if c == iac {
+			t.initialBuf = append(t.initialBuf, c)
+		}
+
+		ctrlBuf = make([]byte, 0)
 	} else if len(ctrlBuf) == 2 { //nolint:mnd
 		cmd := ctrlBuf[1:2][0]
 		ctrlBuf = make([]byte, 0)
